@@ -62,4 +62,443 @@ theorem readPrefix_truncated (sig : List Int) (imgs : List (List Nat)) :
   | succ k =>
     simp [storeStates, ← List.map_take, readPrefix_map]
 
+
+/-! ## B. PlannerData archives -/
+
+/-! ### B1: `std::lower_bound` / `std::binary_search` on sorted input -/
+
+
+theorem lowerBound_spec (a : Array Nat) (x : Nat)
+    (hmono : ∀ i j, i ≤ j → j < a.size → a.getD i 0 ≤ a.getD j 0) :
+    ∀ (fuel first len : Nat), len < fuel → first + len ≤ a.size →
+      (∀ i, i < first → a.getD i 0 < x) →
+      (∀ i, first + len ≤ i → i < a.size → x ≤ a.getD i 0) →
+      lowerBound a x fuel first len ≤ a.size ∧
+      (∀ i, i < lowerBound a x fuel first len → a.getD i 0 < x) ∧
+      (∀ i, lowerBound a x fuel first len ≤ i → i < a.size → x ≤ a.getD i 0) := by
+  intro fuel
+  induction fuel with
+  | zero => intro first len h; omega
+  | succ fuel ih =>
+    intro first len hf hsz hlo hhi
+    unfold lowerBound
+    split
+    · next h0 =>
+      subst h0
+      exact ⟨by omega, hlo, fun i hi his => hhi i (by omega) his⟩
+    · next h0 =>
+      simp only []
+      split
+      · next hlt =>
+        apply ih
+        · omega
+        · omega
+        · intro i hi
+          have := hmono i (first + len / 2) (by omega) (by omega)
+          omega
+        · intro i hi his
+          exact hhi i (by omega) his
+      · next hge =>
+        apply ih
+        · omega
+        · omega
+        · exact hlo
+        · intro i hi his
+          have := hmono (first + len / 2) i (by omega) his
+          omega
+
+theorem binSearch_sorted_le (l : List Nat) (x : Nat) (hs : l.Pairwise (· ≤ ·)) :
+    binSearch l x = true ↔ x ∈ l := by
+  have hget : ∀ i, l.toArray.getD i 0 = l.getD i 0 := by intro i; simp
+  have hmono : ∀ i j, i ≤ j → j < l.toArray.size → l.toArray.getD i 0 ≤ l.toArray.getD j 0 := by
+    intro i j hij hj
+    simp at hj
+    rw [hget, hget]
+    rcases Nat.lt_or_eq_of_le hij with h | h
+    · have := (List.pairwise_iff_getElem.mp hs) i j (by omega) hj h
+      simpa [List.getD, List.getElem?_eq_getElem, hj, (by omega : i < l.length)] using this
+    · subst h; exact Nat.le_refl _
+  have spec := lowerBound_spec l.toArray x hmono (l.toArray.size + 1) 0 l.toArray.size
+    (by omega) (by omega) (by intro i hi; omega) (by intro i h1 h2; omega)
+  obtain ⟨h1, h2, h3⟩ := spec
+  unfold binSearch
+  simp only []
+  generalize lowerBound l.toArray x (l.toArray.size + 1) 0 l.toArray.size = r at *
+  simp only [Bool.and_eq_true, decide_eq_true_eq, Bool.not_eq_true', decide_eq_false_iff_not]
+  constructor
+  · rintro ⟨hr, hx⟩
+    have := h3 r (Nat.le_refl _) hr
+    have heq : l.toArray.getD r 0 = x := by omega
+    rw [hget] at heq
+    simp at hr
+    simp [List.getD, hr] at heq
+    rw [← heq]; exact List.getElem_mem _
+  · intro hx
+    obtain ⟨j, hj, rfl⟩ := List.getElem_of_mem hx
+    have hjv : l.toArray.getD j 0 = l[j] := by
+      rw [hget]; simp [List.getD, hj]
+    have hrj : r ≤ j := by
+      apply Nat.le_of_not_lt
+      intro hlt
+      have := h2 j hlt
+      omega
+    have hr : r < l.toArray.size := by simp; omega
+    refine ⟨hr, ?_⟩
+    have := hmono r j hrj (by simp; omega)
+    omega
+
+theorem binSearch_sorted (l : List Nat) (x : Nat) (hs : l.Pairwise (· < ·)) :
+    binSearch l x = true ↔ x ∈ l :=
+  binSearch_sorted_le l x (hs.imp (fun h => Nat.le_of_lt h))
+
+
+/-! ### B2: store/load round trip -/
+
+
+
+def Graph.WF (g : Graph) : Prop :=
+  (∀ e ∈ g.edges, e.src < g.verts.length ∧ e.dst < g.verts.length) ∧
+  g.edges.Pairwise (fun a b => ¬(a.src = b.src ∧ a.dst = b.dst)) ∧
+  g.edges.Pairwise (fun a b => a.src ≤ b.src)
+
+def StartsOK (g : Graph) : Prop := g.starts.Pairwise (· < ·) ∧ ∀ i ∈ g.starts, i < g.verts.length
+def GoalsOK (g : Graph) : Prop := g.goals.Pairwise (· < ·) ∧ ∀ i ∈ g.goals, i < g.verts.length
+def Disjoint (g : Graph) : Prop := ∀ i, ¬(i ∈ g.starts ∧ i ∈ g.goals)
+
+theorem readVerts_map (vs : List VRec) (rest : List Rec) :
+    readVerts vs.length (vs.map .vertex ++ rest) = .ok (vs, rest) := by
+  induction vs with
+  | nil => simp [readVerts]
+  | cons a as ih => simp [readVerts, ih]
+
+theorem readEdges_map (es : List ERec) (rest : List Rec) :
+    readEdges es.length (es.map .edge ++ rest) = .ok es := by
+  induction es with
+  | nil => simp [readEdges]
+  | cons a as ih => simp [readEdges, ih]
+
+theorem insertSorted_append (k : Nat) (l : List Nat) (h : ∀ y ∈ l, y < k) :
+    insertSorted k l = l ++ [k] := by
+  induction l with
+  | nil => rfl
+  | cons y ys ih =>
+    have hy := h y (by simp)
+    have := ih (fun z hz => h z (by simp [hz]))
+    simp [insertSorted, this]; omega
+
+theorem filter_lt_succ_mem (l : List Nat) (k : Nat) (hs : l.Pairwise (· < ·)) (hk : k ∈ l) :
+    l.filter (· < k + 1) = l.filter (· < k) ++ [k] := by
+  induction l with
+  | nil => simp at hk
+  | cons y ys ih =>
+    rw [List.pairwise_cons] at hs
+    obtain ⟨hy, hys⟩ := hs
+    by_cases hyk : y = k
+    · subst hyk
+      have h1 : ys.filter (· < y + 1) = [] := by
+        simp only [List.filter_eq_nil_iff, decide_eq_true_eq]
+        intro a ha; have := hy a ha; omega
+      have h2 : ys.filter (· < y) = [] := by
+        simp only [List.filter_eq_nil_iff, decide_eq_true_eq]
+        intro a ha; have := hy a ha; omega
+      simp [h1, h2]
+    · have hk' : k ∈ ys := by simpa [Ne.symm hyk] using hk
+      have := hy k hk'
+      have ih' := ih hys hk'
+      have a1 : y < k + 1 := by omega
+      have a2 : y < k := by omega
+      simp [a1, a2, ih']
+
+theorem filter_lt_succ_not_mem (l : List Nat) (k : Nat) (hk : k ∉ l) :
+    l.filter (· < k + 1) = l.filter (· < k) := by
+  apply List.filter_congr
+  intro x hx
+  have : x ≠ k := fun h => hk (h ▸ hx)
+  simp; omega
+
+theorem vrecs_length (g : Graph) : (vrecs g).length = g.verts.length := by
+  simp [vrecs]
+
+theorem vrecs_getElem (g : Graph) (k : Nat) (hk : k < g.verts.length) :
+    (vrecs g)[k]'(by simp [vrecs_length, hk]) =
+      { tag := g.verts[k].tag, type := vtype g k, img := g.verts[k].img } := by
+  simp [vrecs]
+
+theorem foldl_addLoaded_take (g : Graph) (hS : StartsOK g) (hG : GoalsOK g) (hD : Disjoint g) :
+    ∀ k, k ≤ g.verts.length →
+      ((vrecs g).take k).foldl addLoaded {} =
+        { verts := g.verts.take k, edges := [],
+          starts := g.starts.filter (· < k), goals := g.goals.filter (· < k) } := by
+  intro k
+  induction k with
+  | zero => intro _; simp
+  | succ k ih =>
+    intro hk
+    have hk' : k < g.verts.length := by omega
+    have hkv : k < (vrecs g).length := by simp [vrecs_length, hk']
+    rw [List.take_succ_eq_append_getElem hkv, List.foldl_append, ih (by omega)]
+    rw [vrecs_getElem g k hk']
+    simp only [List.foldl_cons, List.foldl_nil]
+    have hlen : (g.verts.take k).length = k := by simp; omega
+    have hvt : g.verts.take k ++ [{ tag := g.verts[k].tag, img := g.verts[k].img }]
+        = g.verts.take (k + 1) := by
+      rw [List.take_succ_eq_append_getElem hk']
+    have hisS : g.isStart k = true ↔ k ∈ g.starts := binSearch_sorted _ _ hS.1
+    have hisG : g.isGoal k = true ↔ k ∈ g.goals := binSearch_sorted _ _ hG.1
+    have hfS : binSearch (g.starts.filter (· < k)) k = false := by
+      rw [Bool.eq_false_iff]; intro h
+      have := (binSearch_sorted _ _ (hS.1.filter _)).mp h
+      simp at this
+    have hfG : binSearch (g.goals.filter (· < k)) k = false := by
+      rw [Bool.eq_false_iff]; intro h
+      have := (binSearch_sorted _ _ (hG.1.filter _)).mp h
+      simp at this
+    unfold addLoaded vtype
+    simp only [Graph.addVertex, hlen, hvt]
+    by_cases hs : k ∈ g.starts
+    · have hng : k ∉ g.goals := fun h => hD k ⟨hs, h⟩
+      simp only [hisS.mpr hs, if_true]
+      simp only [Graph.markStart, Graph.isStart, hfS]
+      have : k < (g.verts.take (k+1)).length := by simp; omega
+      simp only [this, if_true]
+      rw [insertSorted_append _ _ (by intro y hy; simpa using (List.mem_filter.mp hy).2)]
+      rw [filter_lt_succ_mem _ _ hS.1 hs, filter_lt_succ_not_mem _ _ hng]
+      simp
+    · have hs' : g.isStart k = false := by
+        rw [Bool.eq_false_iff]; exact fun h => hs (hisS.mp h)
+      by_cases hg : k ∈ g.goals
+      · simp only [hs', hisG.mpr hg]
+        simp only [Graph.markGoal, Graph.isGoal, hfG]
+        have : k < (g.verts.take (k+1)).length := by simp; omega
+        simp only [this, if_true]
+        simp
+        rw [filter_lt_succ_mem _ _ hG.1 hg, filter_lt_succ_not_mem _ _ hs]
+        simp
+      · have hg' : g.isGoal k = false := by
+          rw [Bool.eq_false_iff]; exact fun h => hg (hisG.mp h)
+        simp [hs', hg']
+        rw [filter_lt_succ_not_mem _ _ hg, filter_lt_succ_not_mem _ _ hs]
+        simp
+
+theorem insertEdge_append (e : ERec) (l : List ERec) (h : ∀ a ∈ l, a.src ≤ e.src) :
+    insertEdge e l = l ++ [e] := by
+  induction l with
+  | nil => rfl
+  | cons y ys ih =>
+    have hy := h y (by simp)
+    have := ih (fun z hz => h z (by simp [hz]))
+    simp [insertEdge, this]; omega
+
+theorem addLoadedEdges_rebuild (vs : List Vertex) (ss gs : List Nat) (suf : List ERec) :
+    ∀ (pre : List ERec),
+      (∀ e ∈ pre ++ suf, e.src < vs.length ∧ e.dst < vs.length) →
+      (pre ++ suf).Pairwise (fun a b => ¬(a.src = b.src ∧ a.dst = b.dst)) →
+      (pre ++ suf).Pairwise (fun a b => a.src ≤ b.src) →
+      addLoadedEdges { verts := vs, edges := pre, starts := ss, goals := gs } suf =
+        { verts := vs, edges := pre ++ suf, starts := ss, goals := gs } := by
+  induction suf with
+  | nil => intro pre _ _ _; simp [addLoadedEdges]
+  | cons e suf ih =>
+    intro pre hr hnd hso
+    have hre := hr e (by simp)
+    have hex : Graph.edgeExists { verts := vs, edges := pre, starts := ss, goals := gs } e.src e.dst
+        = false := by
+      rw [Bool.eq_false_iff]; intro h
+      simp only [Graph.edgeExists, List.any_eq_true, Bool.and_eq_true, beq_iff_eq] at h
+      obtain ⟨a, ha, h1, h2⟩ := h
+      rw [List.pairwise_append] at hnd
+      exact hnd.2.2 a ha e (by simp) ⟨h1, h2⟩
+    have hins : insertEdge e pre = pre ++ [e] := by
+      apply insertEdge_append
+      intro a ha
+      rw [List.pairwise_append] at hso
+      exact hso.2.2 a ha e (by simp)
+    have hstep : (Graph.addEdge { verts := vs, edges := pre, starts := ss, goals := gs } e).1 =
+        { verts := vs, edges := pre ++ [e], starts := ss, goals := gs } := by
+      unfold Graph.addEdge
+      rw [hex]
+      have h1 : ¬ (e.src ≥ vs.length) := by omega
+      have h2 : ¬ (e.dst ≥ vs.length) := by omega
+      simp [h1, h2, hins]
+    have := ih (pre ++ [e]) (by simpa using hr) (by simpa using hnd) (by simpa using hso)
+    simp only [addLoadedEdges, List.foldl_cons] at this ⊢
+    rw [hstep, this]
+    simp
+
+/-- B2, strongest form: under the lookup-accuracy hypotheses the loaded graph *is* the stored one. -/
+theorem load_store_graph_eq (m : Nat) (sig csig : List Int) (g : Graph)
+    (hW : g.WF) (hS : StartsOK g) (hG : GoalsOK g) (hD : Disjoint g) :
+    loadGraph m sig csig (storeGraph m sig csig g) = .ok g := by
+  have hv := readVerts_map (vrecs g) (g.edges.map .edge)
+  have he := readEdges_map g.edges []
+  rw [vrecs_length] at hv
+  simp only [List.append_nil] at he
+  have hfold := foldl_addLoaded_take g hS hG hD g.verts.length (Nat.le_refl _)
+  rw [← vrecs_length, List.take_length, vrecs_length] at hfold
+  have hfs : g.starts.filter (· < g.verts.length) = g.starts := by
+    rw [List.filter_eq_self]; intro a ha; simpa using hS.2 a ha
+  have hfg : g.goals.filter (· < g.verts.length) = g.goals := by
+    rw [List.filter_eq_self]; intro a ha; simpa using hG.2 a ha
+  rw [hfs, hfg, List.take_length] at hfold
+  have hedges := addLoadedEdges_rebuild g.verts g.starts g.goals g.edges []
+    (by simpa using hW.1) (by simpa using hW.2.1) (by simpa using hW.2.2)
+  simp only [loadGraph, storeGraph, hv, he, hfold, ne_eq, not_true_eq_false, if_false]
+  simpa using hedges
+
+theorem load_store_graph (m : Nat) (sig csig : List Int) (g : Graph)
+    (hW : g.WF) (hS : StartsOK g) (hG : GoalsOK g) (hD : Disjoint g) :
+    ∃ g', loadGraph m sig csig (storeGraph m sig csig g) = .ok g' ∧
+      g'.verts = g.verts ∧ g'.edges = g.edges ∧ g'.starts = g.starts ∧ g'.goals = g.goals :=
+  ⟨g, load_store_graph_eq m sig csig g hW hS hG hD, rfl, rfl, rfl, rfl⟩
+
+/-! ### B3/B4: rejection and truncation -/
+
+theorem loadGraph_rejects_marker (m : Nat) (sig csig : List Int) (h : Header) (rest : List Rec)
+    (hm : h.marker ≠ m) : loadGraph m sig csig (.header h :: rest) = .error .marker := by
+  simp [loadGraph, hm]
+
+theorem loadGraph_rejects_signature (m : Nat) (sig sig' csig : List Int) (g : Graph)
+    (hs : sig' ≠ sig) : loadGraph m sig csig (storeGraph m sig' csig g) = .error .signature := by
+  simp [loadGraph, storeGraph, hs]
+
+theorem loadGraph_rejects_ctrl_signature (m : Nat) (sig csig csig' : List Int) (g : Graph)
+    (hs : csig' ≠ csig) :
+    loadGraph m sig csig (storeGraph m sig csig' g) = .error .ctrlSignature := by
+  simp [loadGraph, storeGraph, hs]
+
+theorem readVerts_short (n : Nat) (vs : List VRec) (h : vs.length < n) :
+    readVerts n (vs.map .vertex) = .error .truncated := by
+  induction vs generalizing n with
+  | nil => cases n with
+    | zero => omega
+    | succ n => simp [readVerts]
+  | cons a as ih =>
+    cases n with
+    | zero => simp at h
+    | succ n =>
+      have := ih n (by simpa using h)
+      simp [readVerts, this]
+
+theorem readEdges_short (n : Nat) (es : List ERec) (h : es.length < n) :
+    readEdges n (es.map .edge) = .error .truncated := by
+  induction es generalizing n with
+  | nil => cases n with
+    | zero => omega
+    | succ n => simp [readEdges]
+  | cons a as ih =>
+    cases n with
+    | zero => simp at h
+    | succ n =>
+      have := ih n (by simpa using h)
+      simp [readEdges, this]
+
+theorem loadGraph_truncated (m : Nat) (sig csig : List Int) (g : Graph) :
+    ∀ k, k < (storeGraph m sig csig g).length →
+      loadGraph m sig csig ((storeGraph m sig csig g).take k) = .error .truncated := by
+  intro k hk
+  cases k with
+  | zero => simp [loadGraph]
+  | succ k =>
+    simp [storeGraph, vrecs_length] at hk
+    simp only [storeGraph, List.take_succ_cons, loadGraph, ne_eq, not_true_eq_false, if_false]
+    rw [List.take_append]
+    by_cases hkv : k < g.verts.length
+    · have h0 : k - ((vrecs g).map Rec.vertex).length = 0 := by simp [vrecs_length]; omega
+      rw [h0, List.take_zero, List.append_nil, ← List.map_take,
+        readVerts_short _ _ (by simp [vrecs_length]; omega)]
+    · have h1 : ((vrecs g).map Rec.vertex).take k = (vrecs g).map Rec.vertex := by
+        apply List.take_of_length_le; simp [vrecs_length]; omega
+      have hv := readVerts_map (vrecs g) ((g.edges.map Rec.edge).take (k - ((vrecs g).map Rec.vertex).length))
+      rw [vrecs_length] at hv
+      rw [h1, hv]
+      simp only []
+      rw [← List.map_take, readEdges_short _ _ (by simp [vrecs_length]; omega)]
+
+
+/-! ### B5: the two defects reproduced by the model (witnesses against the unrestricted round trip) -/
+
+/-- deciding `x = .ok y` through `DecidableEq` of the payload (core has no `DecidableEq (Except ε α)`) -/
+theorem except_eq_ok_of_decide {ε α : Type} [DecidableEq α] (x : Except ε α) (y : α)
+    (h : (match x with | .ok v => decide (v = y) | .error _ => false) = true) : x = .ok y := by
+  cases x with
+  | ok v => simp at h; rw [h]
+  | error e => simp at h
+
+/-- three vertices, goals marked in the order 2, 0 (`markGoalState` does not sort `goalVertexIndices_`) -/
+def gUnsortedGoals : Graph :=
+  ((((({} : Graph).addVertex ⟨0, []⟩).addVertex ⟨0, []⟩).addVertex ⟨0, []⟩).markGoal 2).markGoal 0
+
+/-- one vertex that is both start and goal -/
+def gStartAndGoal : Graph :=
+  ((({} : Graph).addVertex ⟨0, []⟩).markStart 0).markGoal 0
+
+theorem gUnsortedGoals_eq :
+    gUnsortedGoals = { verts := [⟨0, []⟩, ⟨0, []⟩, ⟨0, []⟩], edges := [], starts := [], goals := [2, 0] } := by
+  decide
+
+theorem gStartAndGoal_eq :
+    gStartAndGoal = { verts := [⟨0, []⟩], edges := [], starts := [0], goals := [0] } := by
+  decide
+
+/-- Defect (a): all hypotheses of `load_store_graph` hold except that the goal list is not ascending
+(it is still duplicate-free and in range); both goals are lost on the round trip. -/
+theorem load_store_unsorted_goals_fails (m : Nat) (sig csig : List Int) :
+    gUnsortedGoals.WF ∧ StartsOK gUnsortedGoals ∧ Disjoint gUnsortedGoals ∧
+    gUnsortedGoals.goals = [2, 0] ∧ (∀ i ∈ gUnsortedGoals.goals, i < gUnsortedGoals.verts.length) ∧
+    loadGraph m sig csig (storeGraph m sig csig gUnsortedGoals) = .ok { gUnsortedGoals with goals := [] } := by
+  rw [gUnsortedGoals_eq]
+  refine ⟨?_, ?_, ?_, rfl, ?_, ?_⟩
+  · simp [Graph.WF]
+  · simp [StartsOK]
+  · simp [Disjoint]
+  · decide
+  · simp only [loadGraph, storeGraph, ne_eq, not_true_eq_false, if_false]
+    apply except_eq_ok_of_decide
+    decide
+
+/-- Defect (b): all hypotheses of `load_store_graph` hold except `Disjoint`; the vertex comes back as a
+start only. -/
+theorem load_store_start_and_goal_fails (m : Nat) (sig csig : List Int) :
+    gStartAndGoal.WF ∧ StartsOK gStartAndGoal ∧ GoalsOK gStartAndGoal ∧
+    0 ∈ gStartAndGoal.starts ∧ 0 ∈ gStartAndGoal.goals ∧
+    loadGraph m sig csig (storeGraph m sig csig gStartAndGoal) = .ok { gStartAndGoal with goals := [] } := by
+  rw [gStartAndGoal_eq]
+  refine ⟨?_, ?_, ?_, ?_, ?_, ?_⟩
+  · simp [Graph.WF]
+  · simp [StartsOK]
+  · simp [GoalsOK]
+  · simp
+  · simp
+  · simp only [loadGraph, storeGraph, ne_eq, not_true_eq_false, if_false]
+    apply except_eq_ok_of_decide
+    decide
+
+/-- the `GoalsOK` hypothesis of `load_store_graph` cannot be weakened to "in range" -/
+theorem load_store_graph_needs_sorted_goals :
+    ¬ ∀ (m : Nat) (sig csig : List Int) (g : Graph), g.WF → StartsOK g → Disjoint g →
+        (∀ i ∈ g.goals, i < g.verts.length) →
+        ∃ g', loadGraph m sig csig (storeGraph m sig csig g) = .ok g' ∧
+          g'.verts = g.verts ∧ g'.edges = g.edges ∧ g'.starts = g.starts ∧ g'.goals = g.goals := by
+  intro h
+  obtain ⟨hW, hS, hD, hg, hr, hl⟩ := load_store_unsorted_goals_fails 0 [] []
+  obtain ⟨g', h1, _, _, _, h5⟩ := h 0 [] [] gUnsortedGoals hW hS hD hr
+  rw [hl] at h1
+  injection h1 with h1
+  rw [← h1, hg] at h5
+  simp at h5
+
+/-- the `Disjoint` hypothesis of `load_store_graph` cannot be dropped -/
+theorem load_store_graph_needs_disjoint :
+    ¬ ∀ (m : Nat) (sig csig : List Int) (g : Graph), g.WF → StartsOK g → GoalsOK g →
+        ∃ g', loadGraph m sig csig (storeGraph m sig csig g) = .ok g' ∧
+          g'.verts = g.verts ∧ g'.edges = g.edges ∧ g'.starts = g.starts ∧ g'.goals = g.goals := by
+  intro h
+  obtain ⟨hW, hS, hG, _, hg, hl⟩ := load_store_start_and_goal_fails 0 [] []
+  obtain ⟨g', h1, _, _, _, h5⟩ := h 0 [] [] gStartAndGoal hW hS hG
+  rw [hl] at h1
+  injection h1 with h1
+  rw [← h1] at h5
+  rw [← h5] at hg
+  simp at hg
+
 end OmplModel.Copy
